@@ -431,6 +431,9 @@ def histories(T, V, r, n, res, stats):
             stats["events"] += gev.count("Some C") + gev.count("@None cls")
         hist_cases.append("(%s, %s, %s)" % (lib.g_list([g_vconf(vc) for vc, _ in insts]),
                                             lib.g_list(visits), lib.g_list(expected)))
+        if len(hist_cases) == 1:
+            histories.canary = "(%s, %s, %s)" % (lib.g_list([g_vconf(vc) for vc, _ in insts]), lib.g_list(visits),
+                                                 lib.g_list(expected + ["(@nil pyev)"]))
         desc = {"classes": [(c["prefix"], c["H"], "path" if c["pt"] else "plain", c["lg"], c["gname"])
                             for c in classes],
                 "instances": [(vc["H"], vc["tp"]) for vc, _ in insts], "steps": steps}
@@ -674,11 +677,11 @@ def correspond(model_ok, res):
     imports = "Base Decimal Tree TreeEq GenTree GenVisitors Visitor Eq Traverse TraverseProofs"
     try:
         # canaries: a corrupted expectation must be reported
-        canary_h = hc[0].replace("CWord", "CPhrase", 1) if "CWord" in hc[0] else hc[0] + " (* no canary *)"
+        # canary: the first history with one spurious visit result appended to the expectation
+        canary_h = histories.canary
         bad = lib.eval_cases("C08h", imports, HIST_DEFS, hc + [canary_h], "chk_hist", shard=12)
-        if "CWord" in hc[0]:
-            assert len(hc) in bad, "canary (history) not detected"
-            bad = [i for i in bad if i != len(hc)]
+        assert len(hc) in bad, "canary (history) not detected"
+        bad = [i for i in bad if i < len(hc)]
         for i in bad:
             res.disagreements.append({"kind": "history", "case": hp[i]})
         canary_l = "(%s, [(0%%nat, CWord)], [(1%%nat, @None cls)])" % lib.g_list(["[CTerm]"])
